@@ -233,10 +233,22 @@ func anyExpr(g *xgen.G, rt *rapid.T, ctx *xdoc.Node) (e xast.Expr, nodeSet bool)
 func TestC04Rapid(t *testing.T) {
 	runRapid(t, uC04, func(rt *rapid.T) {
 		doc := xgen.Doc(rt, xgen.DefaultDoc())
-		doc2 := xgen.Doc(rt, xgen.DefaultDoc())
+		var doc2 *xdoc.Doc
+		if rapid.Bool().Draw(rt, "doc2-related") {
+			// a slightly edited copy: same expression, same "place", different answer
+			doc2 = xgen.MutateDoc(rt, doc, xgen.DefaultDoc())
+		} else {
+			doc2 = xgen.Doc(rt, xgen.DefaultDoc())
+		}
 		ctx := xgen.Context(rt, doc, 4)
 		g := xgen.NewG(rt, doc)
 		e, nodeSet := anyExpr(g, rt, ctx)
+		if nodeSet && rapid.IntRange(0, 9).Draw(rt, "reverse") == 0 {
+			e = &xast.Call{Name: "reverse", Args: []xast.Expr{e}} // a node-set function: Select is part of its contract
+		}
+		if c, ok := e.(*xast.Call); ok && c.Name == "reverse" {
+			nodeSet = true
+		}
 		ops := []string{"select", "selectPrefix", "evaluate", "evaluatePrefix", "evaluate", "recompile"}
 		if !nodeSet {
 			ops = []string{"evaluate", "evaluate", "evaluate", "recompile"} // Select on a scalar expression is not part of the API contract
@@ -250,9 +262,11 @@ func TestC04Rapid(t *testing.T) {
 				Ctx: rapid.IntRange(0, 60).Draw(rt, "actx"),
 				K:   rapid.IntRange(0, 3).Draw(rt, "k"),
 			}
-			if i == 0 || rapid.IntRange(0, 9).Draw(rt, "samectx") < 4 {
+			if i == 0 || rapid.IntRange(0, 9).Draw(rt, "samectx") < 5 {
 				hist[i].Ctx = ctx.ID // the guided context, where results are non-empty
-				hist[i].Doc = 0
+				if i == 0 || rapid.Bool().Draw(rt, "samedoc") {
+					hist[i].Doc = 0
+				}
 			}
 			if !nodeSet && hist[i].Op == "recompile" {
 				hist[i].K = 0
